@@ -42,7 +42,7 @@ STRATA = {
     "compress": (4000, 120000),
     "serialize": (2500, 100000),
     "column": (2000, 60000),
-    "file": (1000, 15000),
+    "file": (1000, 8000),
 }
 REQUIRED_ORACLES = [
     "int_roundtrip_exact", "string_roundtrip_exact", "fixedpoint_half_step", "interval_one_step",
@@ -1897,7 +1897,7 @@ def _probe_compress_unpackable(ctx):
 
 def _probe_compress_hang(ctx):
     """A non-zero value that needs more decimal places than np.round can deliver (10**d overflows the float type)."""
-    arrays = [np.array([1e-320, 2.5]), np.array([1e-305, 1.0]), np.array([1.2345678e-35, 2.5], dtype=np.float32)]
+    arrays = [np.array([1e-320, 2.5]), np.array([1.2345678e-305, 1.0]), np.array([1.2345678e-35, 2.5], dtype=np.float32)]
     _compress_probe(ctx, arrays, [1e-6], T_C_HANG, True)
 
 
